@@ -36,6 +36,13 @@ def check(report, tier, seed):
     for fs in sets:
         tag = "+".join(sorted(x[:9] for x in fs)) or "none"
         cases = sep_cases + exprcheck.random_cases(rng, 250, fs, depth=4) + exprcheck.fault_cases(rng, 250, fs)
+        # the boundary widths of the rules the options name: 0, 1, 2 bits and unsized under the boolean and the
+        # arithmetic operators (a zero-width operand is neither "one bit" nor "unsized")
+        for op_ in ("LogicalAnd", "LogicalOr", "Add", "Sub", "Mul", "Div"):
+            for wl_ in (0, 1, 2, None):
+                for wr_ in (0, 1, 2, None):
+                    cases.append({"ast": ("b", op_, ("w", "a"), ("w", "b")), "tag": "edge:" + op_,
+                                  "env": [("a", wl_, 1 if wl_ != 0 else 0, False), ("b", wr_, 1 if wr_ != 0 else 0, False)]})
         st = exprcheck.run_expr_cases(report, cases, fs, "dev", prefix="f%d_" % len(finals))
         total["sets"] += 1
         for k, v in st.items():
